@@ -112,6 +112,7 @@ inductive Out where
   | errKey         -- POSKeyError
   | closed
   | misuse
+  | errCallback    -- the exception of the callback handed to tpc_finish
 deriving DecidableEq, Repr
 
 inductive Op where
@@ -283,6 +284,16 @@ def doFinish (s : State) (t : TxnId) : Res :=
               tindex := [], tfile := [], txn := none, commitLock := none },
      [.write .data (s.pos + 16) 1, .fsync .data], .ok)
 
+/-- `tpc_finish(t, f)` whose callback `f` raises.  `f(tid)` runs inside the `try` BEFORE `_finish`
+    (nothing is committed), and the `finally` clause forgets the transaction and releases the lock —
+    without undoing the vote: the voted bytes stay behind `_pos`, the staging area and the blob files
+    stay, and a later `tpc_abort(t)` is ignored because `t` is no longer current.  Kept OUTSIDE `step`
+    (the theorems' histories do not contain it); `Props.C05.finish_callback_*` exhibit the effect. -/
+def doFinishCb (s : State) (t : TxnId) : Res :=
+  if s.closed then (s, [], .closed)
+  else if s.txn ≠ some t then (s, [], .errTxn)
+  else ({ s with txn := none, commitLock := none, armed := none }, [], .errCallback)
+
 /-- BaseStorage.tpc_abort + FileStorage._abort + _blob_tpc_abort + _clear_temp -/
 def doAbort (s : State) (t : TxnId) : Res :=
   if s.txn ≠ some t then (s, [], .ok)      -- silently ignored
@@ -432,6 +443,11 @@ def doAbort (s : State) (t : TxnId) : Res :=
   if s.txn ≠ some t then (s, .ok)
   else ({ s with tdata := [], dirty := [], txn := none, commitLock := none }, .ok)
 
+/-- MappingStorage.tpc_finish calls `func(tid)` first: a raising callback leaves everything as it
+    was (transaction still current, lock held), so the mandated abort works -/
+def doFinishCb (s : State) (t : TxnId) : Res :=
+  if s.txn ≠ some t then (s, .errTxn) else (s, .errCallback)
+
 def step (s : State) (op : Op) : Res :=
   match op with
   | .fault _ => (s, .ok)
@@ -535,6 +551,13 @@ def doFinish (d : State M) (op : Op) (t : TxnId) : State M × Out :=
     | .ok => ({ d with txn := none, commitLock := none, changes := r.1 }, .ok)
     | .misuse => ({ d with changes := r.1 }, .misuse)          -- outside the model, see the header
     | e => ({ d with txn := none, changes := r.1 }, e)         -- the demo lock stays held
+
+/-- DemoStorage.tpc_finish whose callback raises inside `changes.tpc_finish` (`r` = what the changes
+    storage does with it): `_transaction` is already `None`, the lock release is skipped.  Outside
+    `step`, as `TwoPC.doFinishCb`. -/
+def doFinishCb (d : State M) (t : TxnId) (r : M.σ × Out) : State M × Out :=
+  if d.txn ≠ some t then (d, .errTxn)
+  else ({ d with txn := none, changes := r.1 }, r.2)
 
 def doAbort (d : State M) (op : Op) (t : TxnId) : State M × Out :=
   if d.txn ≠ some t then (d, .ok)
